@@ -36,7 +36,10 @@ func runC04(w *World, r *Report) {
 		c03ReadOnlySelection(w, r)
 		c03ExtendKeepsKinds(w, r)
 		hrFilterResultGetters(w, r, "R9")
-	}, map[string]string{"R9": "R6"})
+		c03Tables(w, r)
+	}, map[string]string{"R9": "R6", "R2": "R6", "R4": "R6"})
+	hrFoundIsMonotone(w, r, "R6")
+	hrAddConnections(w, r, "R8")
 	hrMeasureReturnsError(w, r, "R1")
 	ef := w.Fn(pkgStream, "Stream.ExecuteFlow")
 	if ef == nil {
